@@ -245,7 +245,7 @@ func (c *LocalActionsCache) FindMetadata(spec string) (*ActionMetadata, bool, er
 	}
 
 	var meta ActionMetadata
-	if err := yaml.Unmarshal(b, &meta); err != nil {
+	if err := decodeYAML(b, &meta); err != nil {
 		if m, ok := c.writeCache(spec, nil); ok { // Remember action was invalid
 			return m, true, nil
 		}
